@@ -848,6 +848,13 @@ class _HttpSrv:
             k = k.upper()
             name = k[5:] if k.startswith("HTTP_") else k
             hdrs["-".join(w.capitalize() for w in name.split("_"))] = v
+        # the in-process Runner fakes HTTP_HOST = 127.0.0.1 (port 80 implied) and spells a LOCAL MOVE destination
+        # http://127.0.0.1/...; over a real socket the client sends Host: 127.0.0.1:<port> and the local destination
+        # carries the same host:port (a destination on another host stays what it is)
+        hdrs.pop("Host", None)
+        local = "http://127.0.0.1/"
+        if hdrs.get("Destination", "").startswith(local):
+            hdrs["Destination"] = "http://127.0.0.1:%d/" % self.port + hdrs["Destination"][len(local):]
         if login:
             hdrs["Authorization"] = "Basic " + base64.b64encode(login.encode("utf-8")).decode()
         body = None if data is None else (data if isinstance(data, bytes) else data.encode("utf-8"))
